@@ -200,6 +200,17 @@ def h1ErrorReply (canWrite responseStarted : Bool) (code : Nat) (m : Bytes) : Op
     | some s => if responseStarted then (none, true) else (some (makeErrorResponse s m), true)
     | none => (none, true)
 
+/-- the same send site, with WHICH response head has been relayed to this client before the error as input
+    (`none`: nothing yet; `some st`: the head of a response with status `st` — mitmproxy's own `100 Continue`,
+    a `101 Switching Protocols`, or a final head, possibly followed by part of its body).  `Http1Server` keeps the
+    last head it wrote in `self.response` and writes an error page only while that is `None`. -/
+def h1ErrorReplyAfter (canWrite : Bool) (relayed : Option Nat) (code : Nat) (m : Bytes) : Option Bytes × Bool :=
+  h1ErrorReply canWrite relayed.isSome code m
+
+/-- the client's view of the exchange: the bytes of what was relayed before, then what the error path writes -/
+def clientWire (relayedBytes : Bytes) (canWrite : Bool) (relayed : Option Nat) (code : Nat) (m : Bytes) : Bytes :=
+  relayedBytes ++ ((h1ErrorReplyAfter canWrite relayed code m).1).getD []
+
 /-! ### reference HTTP/1.1 response reader -/
 
 structure Resp where
